@@ -332,4 +332,150 @@ def Faithful (prep : Nat → List (Str × Str) → Prepared) (c : CaseVal) (ia :
 /-- the prepared request as `generate` receives it -/
 def preparedReq (p : Prepared) (verify : Bool) : Req := ⟨p.method, p.url, p.body, verify, p.headers, p.known⟩
 
+/-! ### (e) "headers that curl / requests add on their own" — stated without looking at the code's table
+
+  The property lets the command differ from the original request only in header fields that the two clients add by
+  themselves.  What they add is a fact about the clients, not about schemathesis: the harness measures it on the real
+  clients on every run (a request sent by the real transport for a case nobody set a header on; `curl` without any
+  `-H`) and hands it to the specification as `Clients`.  Nothing below reads `get_excluded_headers()`.
+
+  A header field of the original may be missing from the command only if
+    (1) curl sends a field of that name with that value on its own (`curlAddsSame`: `Host` of the URL, `Accept: */*`,
+        its `User-Agent`, and with data `Content-Length` of the data / `Content-Type: application/x-www-form-urlencoded`), or
+    (2) it is a transport artefact (`isArtefact`): the framing of the body (`Content-Length`, `Transfer-Encoding` —
+        the property compares the body itself), the label with the test case id, or a field `requests` puts on a
+        request nobody set a header on, *with the value it puts there*. -/
+
+structure Clients where
+  /-- `User-Agent` of the curl binary (`curl/7.88.1`) -/
+  curlAgent : Str
+  /-- the header fields of a request sent by the real transport for a case without headers (`Host` and the label left out) -/
+  requestsOwn : List (Str × Str)
+  /-- the name of the field by which the transport labels a request with the id of its test case -/
+  caseIdHeader : Str
+  deriving Repr
+
+def framingNames : List Str := [contentLength, transferEncoding]
+
+def sameName (a b : Str) : Bool := lower a == lower b
+
+/-- decimal digits of a number (`Content-Length`) -/
+def decimal (n : Nat) : Str := (Nat.toDigits 10 n)
+
+/-- `http://` / `https://` removed: (is https, rest) -/
+def dropScheme : Str → Option (Bool × Str)
+  | 'h' :: 't' :: 't' :: 'p' :: ':' :: '/' :: '/' :: rest => some (false, rest)
+  | 'h' :: 't' :: 't' :: 'p' :: 's' :: ':' :: '/' :: '/' :: rest => some (true, rest)
+  | _ => none
+
+def dropSuffix (suffix s : Str) : Str :=
+  if suffix.isSuffixOf s then s.take (s.length - suffix.length) else s
+
+/-- the `Host` field a client derives from the URL: the authority without a default port. `none`: outside the
+    fragment (no http(s) scheme, userinfo — curl would add `Authorization` —, IPv6 literal, empty host). -/
+def hostOf (url : Str) : Option Str :=
+  match dropScheme url with
+  | none => none
+  | some (https, rest) =>
+    let a := rest.takeWhile fun c => !(c == '/' || c == '?' || c == '#')
+    if a.isEmpty || a.contains '@' || a.contains '[' then none
+    else some (dropSuffix (if https then ":443".toList else ":80".toList) a)
+
+/-- the header fields curl puts on the wire by itself (lib/http.c 7.88 `Curl_http`): `Host`, `User-Agent`, `Accept`;
+    when data is posted also `Content-Length` (bytes of the data) and `Content-Type` -/
+def curlOwn (c : Clients) (url : Str) (data : Option Str) : List (Str × Str) :=
+  (match hostOf url with | some h => [("Host".toList, h)] | none => [])
+    ++ [(userAgent, c.curlAgent), ("Accept".toList, "*/*".toList)]
+    ++ (match data with
+        | some d => [(contentLength, decimal (utf8Encode d).length),
+                     ("Content-Type".toList, "application/x-www-form-urlencoded".toList)]
+        | none => [])
+
+/-- the arguments consumed as the parameter of `-H` / `--header` -/
+def headerTextsGo (st : CurlSt) : List Str → List Str
+  | [] => []
+  | a :: rest => (if st.pending = .header then [a] else []) ++ headerTextsGo (curlStep st a) rest
+
+def headerTexts : List Str → List Str
+  | [] => []
+  | _ :: args => headerTextsGo CurlSt.init args
+
+/-- the field name a `-H` text addresses (`Curl_checkheaders`: the text up to its first ':' or ';') -/
+def textName (t : Str) : Str := t.takeWhile fun c => !(c == ':' || c == ';')
+
+/-- a `-H` text with this name — whatever its value, even a blank one — makes curl leave out its own field -/
+def addressed (texts : List Str) (name : Str) : Bool := texts.any fun t => sameName (textName t) name
+
+/-- every header field curl sends: its own ones that no `-H` text addresses, then the custom ones -/
+def wireOf (c : Clients) (texts : List Str) (url : Str) (data : Option Str) (custom : List (Str × Str)) : List (Str × Str) :=
+  (curlOwn c url data).filter (fun d => !addressed texts d.1) ++ custom
+
+def curlWire (c : Clients) (argv : List Str) : Option (List (Str × Str)) :=
+  match curlSem argv with
+  | .request _ u hs b _ => some (wireOf c (headerTexts argv) u b hs)
+  | _ => none
+
+def onWire (wire : List (Str × Str)) (kv : Str × Str) : Bool := wire.any fun w => sameName w.1 kv.1 && w.2 == kv.2
+
+/-- (2) transport artefacts the property exempts -/
+def isArtefact (c : Clients) (kv : Str × Str) : Bool :=
+  (framingNames.any fun n => sameName n kv.1) || sameName c.caseIdHeader kv.1
+    || c.requestsOwn.any fun o => sameName o.1 kv.1 && o.2 == kv.2
+
+/-- (1) curl sends a field of this name with this value on its own for the original request -/
+def curlAddsSame (c : Clients) (o : Original) (kv : Str × Str) : Bool := onWire (curlOwn c o.url (bodyOf o.body)) kv
+
+/-- a header field of the original may be missing from the command only in these two cases -/
+def mayOmit (c : Clients) (o : Original) (kv : Str × Str) : Bool := curlAddsSame c o kv || isArtefact c kv
+
+/-- The property on the wire: sh + curl turn the command into one request with the method, URL, body and
+    `--insecure` of the original; every custom field of it is a field of the original; every field of the original is
+    among the fields curl sends (its own included) or is a transport artefact. -/
+def reproducesOnWire (c : Clients) (o : Original) (cmd : Str) : Bool :=
+  match shParse cmd with
+  | none => false
+  | some argv =>
+    match curlSem argv with
+    | .request m u hs b k =>
+      m == o.method && u == o.url && bodyOf b == bodyOf o.body && k == !o.verify
+        && (hs.all fun kv => o.headers.contains kv)
+        && o.headers.all fun kv => onWire (wireOf c (headerTexts argv) u b hs) kv || isArtefact c kv
+    | _ => false
+
+/-- the same as a table for `reproduces`: the specification's own table of automatic fields for one original -/
+def specAuto (c : Clients) (o : Original) : Table :=
+  (framingNames ++ [c.caseIdHeader]).map (fun n => (n, none))
+    ++ (c.requestsOwn ++ curlOwn c o.url (bodyOf o.body)).map fun kv => (kv.1, some kv.2)
+
+/-- the part of it that does not depend on the request -/
+def staticAuto (c : Clients) : Table :=
+  (framingNames ++ [c.caseIdHeader]).map (fun n => (n, none))
+    ++ (c.requestsOwn ++ [(userAgent, c.curlAgent), ("Accept".toList, "*/*".toList)]).map fun kv => (kv.1, some kv.2)
+
+/-- does a table of the code hide only what is automatic for every request? (decidable, entry by entry: an entry
+    "never shown" must be a framing field or the label, an entry with a value must be automatic with that value) -/
+def tableWithin (c : Clients) (tbl : Table) : Bool :=
+  tbl.all fun e =>
+    match e.2 with
+    | none => (framingNames.any fun n => sameName n e.1) || sameName c.caseIdHeader e.1
+    | some d => isAutoValued (staticAuto c) e.1 d
+
+/-- the entries of a table that are not within the specification (what the harness builds directed inputs from) -/
+def tableOutside (c : Clients) (tbl : Table) : Table := tbl.filter fun e => !tableWithin c [e]
+
+/-- `requests` keeps one field per lower-cased name (CaseInsensitiveDict) -/
+def namesUnique : List (Str × Str) → Bool
+  | [] => true
+  | kv :: rest => !(rest.any fun x => sameName x.1 kv.1) && namesUnique rest
+
+/-- What the measured clients must agree on with the inputs of `get_excluded_headers()` (checked by the harness on
+    every run; a statement about `requests` and the transport, not about curl.py): `requests` really puts each of the
+    defaults it reports on a request nobody set a header on, except that the transport replaces `User-Agent` by
+    `ua`; it spells that name `User-Agent`; the label is the field named `caseIdHeader`. -/
+def ClientsAgree (c : Clients) (defaults : List (Str × Str)) (ua caseIdHeader : Str) : Prop :=
+  (∀ kv ∈ defaults, sameName kv.1 userAgent = false → isArtefact c kv = true)
+    ∧ isArtefact c (userAgent, ua) = true
+    ∧ (∀ kv ∈ defaults, sameName kv.1 userAgent = true → kv.1 = userAgent)
+    ∧ sameName c.caseIdHeader caseIdHeader = true
+
 end SV.Spec.C09
